@@ -82,6 +82,11 @@ def kind_of(model):
     return "bool"
 
 
+def _other_letter(alphabet, ch):
+    """a letter of the alphabet other than ch (ch itself may be a separator that an earlier join put into the text)"""
+    return alphabet[(alphabet.index(ch) + 1) % len(alphabet)] if ch in alphabet else alphabet[0]
+
+
 def norm_index(i, n):
     """map an arbitrary int to a valid index in [-n, n)"""
     return (i % (2 * n)) - n
@@ -250,7 +255,7 @@ def run(case, stats=None):
                     for r_, m in enumerate(M):
                         how = (r_ + op["i"]) % 3
                         if how == 1 and m:
-                            m = m[:-1] + alphabet[(alphabet.index(m[-1]) + 1) % len(alphabet)]
+                            m = m[:-1] + _other_letter(alphabet, m[-1])
                         elif how == 2 and m:
                             m = m[:-1]
                         other_m.append(m)
@@ -258,15 +263,24 @@ def run(case, stats=None):
                     res = strops.str_equal(R, other)
                     push(np.asarray(res), [m == o for m, o in zip(M, other_m)], op, check_encoding=False)
                 elif name == "str_equal":
+                    # (op['via']: the rows are compared through a view made on the spot that nothing has read: columns reversed, every second column, rows reversed)
+                    via = op.get("via", 0)
+                    RV, MV = R, M
+                    if via == 1:
+                        RV, MV = R[:, ::-1], [m[::-1] for m in M]
+                    elif via == 2:
+                        RV, MV = R[:, ::2], [m[::2] for m in M]
+                    elif via == 3:
+                        RV, MV = R[::-1], M[::-1]
                     if n and not op.get("other"):
-                        target = M[op["i"] % n]
-                    elif n and op.get("other") == 2 and M[op["i"] % n]:
-                        base = M[op["i"] % n]      # same length, same prefix, different last character
-                        target = base[:-1] + alphabet[(alphabet.index(base[-1]) + 1) % len(alphabet)]
+                        target = MV[op["i"] % n]
+                    elif n and op.get("other") == 2 and MV[op["i"] % n]:
+                        base = MV[op["i"] % n]      # same length, same prefix, different last character
+                        target = base[:-1] + _other_letter(alphabet, base[-1])
                     else:
                         target = "".join(alphabet[(k + op["i"]) % len(alphabet)] for k in range(op["i"] % 4))
-                    res = strops.str_equal(R, target)
-                    push(np.asarray(res), [m == target for m in M], op, check_encoding=False)
+                    res = strops.str_equal(RV, target)
+                    push(np.asarray(res), [m == target for m in MV], op, check_encoding=False)
                 elif name == "set_cell":
                     if n == 0:
                         continue
@@ -377,7 +391,7 @@ def run(case, stats=None):
                     lit = "".join(alphabet[(k * 7 + op["k"]) % len(alphabet)] for k in range(1 + op["n"] % 12))
                     a = bnp.as_encoded_array(lit, enc)
                     p = op["p"] % len(lit)
-                    c = alphabet[(alphabet.index(lit[p]) + 1) % len(alphabet)]
+                    c = _other_letter(alphabet, lit[p])
                     try:
                         a[p:p + 1] = c
                     except ValueError:
@@ -548,7 +562,8 @@ def op_strategy(with_matrix=False):
         st.builds(lambda s, c: {"op": "from_rows", "src": s, "compare": int(c)}, src, st.booleans()),
         st.builds(lambda s, p: {"op": "join", "src": s, "sep": p}, src, st.sampled_from([",", ";", "\t"])),
         st.builds(lambda s, k, kl: {"op": "join", "src": s, "sep_k": k, "keep_last": int(kl)}, src, st.integers(0, 25), st.booleans()),
-        st.builds(lambda s, i, o: {"op": "str_equal", "src": s, "i": i, "other": o}, src, st.integers(0, 20), st.sampled_from([0, 1, 2, 2, 3, 3])),
+        st.builds(lambda s, i, o, v: {"op": "str_equal", "src": s, "i": i, "other": o, **({"via": v} if v and o != 3 else {})}, src, st.integers(0, 20),
+                  st.sampled_from([0, 1, 2, 2, 3, 3]), st.sampled_from([0, 0, 1, 2, 3])),
         st.builds(lambda s, j, c: {"op": "set_cell", "src": s, "j": j, "c": c}, src, st.integers(0, 20), st.integers(0, 25)),
         st.builds(lambda s, i, c: {"op": "set_row", "src": s, "i": i, "c": c}, src, st.integers(0, 30), st.integers(0, 25)),
         st.builds(lambda s, a, b, w, c: {"op": "set_block", "src": s, "a": a, "b": b, "w": w, "c": c}, src, st.integers(0, 20), st.integers(0, 20),
